@@ -209,6 +209,8 @@ PROPS = {
         'assumptions': ['R3: 1-bit items are encoded by truthiness; R4: 1-3 trailing bytes of a VALGET response are not a pair'],
     },
     'C17': {
+        'source_transfer': ['TransferHelpers'],
+        'source_tie': ['Helpers'],
         'jobs': [{'component': 'gnss', 'profile': 'helpers', 'quick': 2400, 'thorough': 6000},
                  {'component': 'helper', 'profile': 'helpers', 'quick': 600, 'thorough': 1500}],
         'exhaustive_note': 'set_rate_in_hz for 0..11; every permutation of every subset of <= 2 (thorough <= 3) GNSS systems',
